@@ -230,6 +230,8 @@ Example C01_program_nonvacuous :
             SAssign "w" (RLit (LInt 0));
             SRepeat (LWhile (RExpr (EBin BLt (ECall "sq" [RVar "w"]) (ELit (LInt 5))))) (SBlock [SAssign "w" (RExpr (EBin BAdd (EVar "w") (ELit (LInt 1)))); SPrintln (Some (RVar "w"))]);
             SSet (OpList [Zone (NStr "strip") (RLit (LInt 1)) (Some (RVar "total")); Target TLight (NStr "a"); Zone (NVar "x") (RExpr (EBin BSub (EVar "total") (ELit (LInt 3)))) None]);
+            SRepeat (LCount (RCall "sq" [RLit (LInt 2)])) (SBlock [SPrint (Some (RLit (LInt 7)))]);
+            SRepeat (LCount (RExpr (EBin BSub (ECall "round" [RVar "total"]) (ELit (LInt 3))))) (SBlock [SPrintln (Some (RLit (LInt 8)))]);
             SAssign "r" (RCall "round" [RVar "total"]); SPrintln (Some (RCall "floor" [RExpr (EBin BDiv (EVar "total") (ELit (LInt 2)))]));
             SReg R_HUE (RCall "sq" [RVar "total"]); SPrint (Some (RCall "sq" [RExpr (EBin BSub (EVar "total") (ELit (LInt 7)))]));
             SPrintln (Some (RVar "total"))] in
